@@ -444,11 +444,15 @@ def run(ctx, args):
                 stats["synthetic-sorted"] = stats.get("synthetic-sorted", 0) + 1
                 if (rf[0] == "1") != spec:
                     spec_fail += 1
+                    unknown_seen["syn"] = unknown_seen.get("syn", 0) + 1
+                if (rf[0] == "1") != spec and unknown_seen["syn"] <= 3:
                     ctx.report("implements:sorted-tables:" + l[:120], "Implements disagrees with the specification on sorted duplicate-free tables", {"line": l, "native": rl})
                 if mode == "v:" and t and rf[1] != "-":
                     ok_spec = spec and v and [m for m in v if m[0] == t[0][0]][0][2] != 0
                     if (rf[1] == "1") != bool(ok_spec):
                         spec_fail += 1
+                        unknown_seen["synitab"] = unknown_seen.get("synitab", 0) + 1
+                    if (rf[1] == "1") != bool(ok_spec) and unknown_seen["synitab"] <= 3:
                         ctx.report("newitab:sorted-tables:" + l[:120], "NewItab disagrees with the specification on sorted duplicate-free tables", {"line": l, "native": rl})
             else:
                 stats["synthetic-unsorted-or-dup"] = stats.get("synthetic-unsorted-or-dup", 0) + 1
